@@ -110,11 +110,18 @@ class Transport:
         self.closing = True
 
 
+_SHIFT = [0]  # set per case (run_case): which sends get the long payloads
+
+
 def marker(i: int) -> bytes:
-    return b"S%03d" % i + bytes([0x7E, 0x11, i & 0xFF])
+    # short ones, and ones as long as real EZSP frames get (40 and 180 bytes)
+    j_ = i + _SHIFT[0]
+    tail = bytes((i * 7 + j) & 0xFF for j in range(180 if j_ % 7 == 3 else 40 if j_ % 3 == 1 else 0))
+    return b"S%03d" % i + bytes([0x7E, 0x11, i & 0xFF]) + tail
 
 
 def run_case(case, acc: Acc | None = None):
+    _SHIFT[0] = sum(len(sc) * 3 + len(repr(sc)) for sc in case.get("sends", [])) % 21
     """Executes one case; returns (trace, problems) where problems come from the harness
     itself (hang).  The trace is judged by check_trace()."""
     import bellows.ash as ash
